@@ -200,6 +200,26 @@ pub mod kernels {
     use super::*;
     use embedded_graphics::primitives::verif_hooks as hk;
 
+    /// C02, thick-segment kernel: the per-segment box that Styled<Polyline>/Styled<Triangle>::bounding_box()
+    /// are folded from contains the end points of every EDGE line that ThickSegment::intersection()
+    /// rasterises (one edge for a "skeleton" segment, both otherwise; cap lines are covered by the
+    /// neighbouring segments by design). The joins are ARBITRARY corner points (7 signed bits each): an
+    /// over-approximation of the joins LineJoin can produce, so a counterexample is a statement about the
+    /// segment code alone; the polyline lists (c01_c02_*_g_thick_*) are the confirmation through the
+    /// public API.
+    #[cfg_attr(kani, kani::proof, kani::unwind(2))]
+    pub fn c02_q_k_thick_segment_box() {
+        let start = [point(7), point(7), point(7), point(7)];
+        let end = [point(7), point(7), point(7), point(7)];
+        note!("start_join_corners", start); note!("end_join_corners", end);
+        let (skeleton, right, left, bb) = hk::thick_segment_box(start, end);
+        note!("is_skeleton", skeleton); note!("right_edge", right); note!("left_edge", left); note!("edges_bounding_box", bb);
+        check!(in_rect(&bb, right.start) && in_rect(&bb, right.end), "C02.segment_box_contains_drawn_edge");
+        if !skeleton { check!(in_rect(&bb, left.start) && in_rect(&bb, left.end), "C02.segment_box_contains_drawn_edge"); }
+        reach!(skeleton, "reach.skeleton");
+        reach!(!skeleton && bb.size.width > 3, "reach.thick");
+    }
+
     macro_rules! c06_row {
         ($name:ident, $mk:expr, $hook:path, $sbits:expr, $wbits:expr, $unw:expr) => {
             /// one row of the real styled scanline iterator vs fill_area()/stroke_area()
@@ -307,6 +327,19 @@ c01_g!(c01_c02_t_g_triangles_stroke1, 40, [
     (tri_a(), |f, s| style(1, StrokeAlignment::Center, Some(f), Some(s))),
     (tri_b(), |_f, s| style(1, StrokeAlignment::Center, None, Some(s))),
     (tri_b(), |f, s| style(0, StrokeAlignment::Center, Some(f), Some(s))),
+]);
+// degenerate triangles (colinear / coincident vertices) take the "collapsed" path of the scanline code,
+// which tags its lines as stroke even for stroke width 0
+fn tri_col() -> Triangle { Triangle::new(Point::new(0, 0), Point::new(1, 1), Point::new(3, 3)) }
+fn tri_pt() -> Triangle { Triangle::new(Point::new(1, -1), Point::new(1, -1), Point::new(1, -1)) }
+c01_g!(c01_c02_q_g_triangle_degenerate_w0, 12, [
+    (tri_col(), |f, s| style(0, StrokeAlignment::Inside, Some(f), Some(s))),
+    (tri_col(), |f, s| style(0, StrokeAlignment::Center, Some(f), Some(s))),
+    (tri_pt(), |f, s| style(0, StrokeAlignment::Inside, Some(f), Some(s))),
+]);
+c01_g!(c01_c02_q_g_triangle_degenerate_w1, 12, [
+    (tri_col(), |f, s| style(1, StrokeAlignment::Inside, Some(f), Some(s))),
+    (tri_pt(), |_f, s| style(1, StrokeAlignment::Center, None, Some(s))),
 ]);
 c01_g!(c01_c02_q_g_polyline_thin, 40, [
     (Polyline::new(&PL_A), |_f, s| PrimitiveStyle::with_stroke(s, 1)),
